@@ -34,8 +34,9 @@ VARIABLES l, run, driver,
           nworkers,   \* --workers of the run (0 = not recorded)
           liveSet, live, maxLive,   \* destination handles open now (set, count) and the peak of the count
           copiers,    \* tids that issued a data-copy call on a destination file
+          lite,       \* TRUE: the trace holds open/close events only (C20's big trees) - only the handle count is replayed
           drift       \* set of drift descriptions for this run
-vars == <<l, run, driver, stage, opener, finBy, finStep, cloned, inflight, dispatcher, nworkers, liveSet, live, maxLive, copiers, drift>>
+vars == <<l, run, driver, stage, opener, finBy, finStep, cloned, inflight, dispatcher, nworkers, liveSet, live, maxLive, copiers, lite, drift>>
 
 \* XcpParblock!OpenBound: handles <= Q + W + 1 (Q = 128 queued block jobs, W running, one in the dispatcher's hands);
 \* XcpParfile: one handle per worker
@@ -45,7 +46,7 @@ HandleBound == IF driver = "parblock" THEN PoolQueue + nworkers + 1 ELSE nworker
 Empty == [x \in {} |-> 0]
 Init == /\ l = 1 /\ run = "" /\ driver = "" /\ stage = Empty /\ opener = Empty /\ finBy = Empty /\ finStep = Empty
         /\ cloned = {} /\ inflight = {} /\ dispatcher = 0 /\ drift = {}
-        /\ nworkers = 0 /\ liveSet = {} /\ live = 0 /\ maxLive = 0 /\ copiers = {}
+        /\ nworkers = 0 /\ liveSet = {} /\ live = 0 /\ maxLive = 0 /\ copiers = {} /\ lite = FALSE
 
 Upd(f, k, v) == [x \in DOMAIN f \cup {k} |-> IF x = k THEN v ELSE f[x]]
 Known(p) == p \in DOMAIN stage
@@ -77,14 +78,15 @@ Event(r) ==
   /\ live' = IF opens THEN live + 1 ELSE IF closes THEN live - 1 ELSE live
   /\ maxLive' = IF opens /\ live + 1 > maxLive THEN live + 1 ELSE maxLive
   /\ copiers' = IF isCopyCall THEN copiers \cup {r.tid} ELSE copiers
-  /\ stage' = IF isOpenCreate THEN Upd(stage, p, "opened")
+  /\ stage' = IF lite THEN stage
+              ELSE IF isOpenCreate THEN Upd(stage, p, "opened")
               ELSE IF isTrunc /\ st = "opened" THEN Upd(stage, p, "trunc")
               ELSE IF isTrunc /\ st = "trunc" THEN Upd(stage, p, "alloc")
               ELSE IF isCopyCall /\ st \in {"alloc", "copy"} THEN Upd(stage, p, "copy")
               ELSE IF (isMeta \/ isSync) /\ st \in {"alloc", "copy", "fin"} THEN Upd(stage, p, "fin")
               ELSE IF isClose /\ r.tid = (IF p \in DOMAIN finBy THEN finBy[p] ELSE opener[p]) /\ st \in {"alloc", "copy", "fin"} THEN Upd(stage, p, "closed")
               ELSE stage
-  /\ opener' = IF isOpenCreate THEN Upd(opener, p, r.tid) ELSE opener
+  /\ opener' = IF isOpenCreate /\ ~lite THEN Upd(opener, p, r.tid) ELSE opener
   /\ dispatcher' = IF isOpenCreate /\ driver = "parblock" /\ dispatcher = 0 THEN r.tid ELSE dispatcher
   /\ finBy' = IF (isMeta \/ isSync) /\ p \notin DOMAIN finBy THEN Upd(finBy, p, r.tid) ELSE finBy
   /\ finStep' = IF isMeta THEN Upd(finStep, p, Rank(r.kind)) ELSE IF isSync THEN Upd(finStep, p, 5) ELSE finStep
@@ -103,7 +105,7 @@ Event(r) ==
        \cup D(isMeta /\ p \in DOMAIN finStep /\ Rank(r.kind) < finStep[p], "finalisation steps out of order (owner, xattrs, permissions, timestamps, fsync)")
        \cup D(isSync /\ p \in DOMAIN finStep /\ finStep[p] = 5, "second fsync")
        \cup D((isMeta \/ isSync) /\ driver = "parfile" /\ Known(p) /\ r.tid # opener[p], "parfile: finalisation by another thread than the opener")
-  /\ UNCHANGED <<run, driver, nworkers>>
+  /\ UNCHANGED <<run, driver, nworkers, lite>>
 
 Step ==
   /\ l <= Len(Rec) /\ l' = l + 1
@@ -111,14 +113,14 @@ Step ==
      IF r.ev = "reset"
        THEN /\ run' = r.run /\ driver' = r.driver /\ stage' = Empty /\ opener' = Empty /\ finBy' = Empty /\ finStep' = Empty
             /\ cloned' = {} /\ inflight' = {} /\ dispatcher' = 0 /\ drift' = {}
-            /\ nworkers' = r.workers /\ liveSet' = {} /\ live' = 0 /\ maxLive' = 0 /\ copiers' = {}
+            /\ nworkers' = r.workers /\ liveSet' = {} /\ live' = 0 /\ maxLive' = 0 /\ copiers' = {} /\ lite' = r.lite
      ELSE IF r.ev = "end"
        THEN /\ PrintT(<<"LIFE", ToJson([run |-> run,
                                         drift |-> SetToSeq(drift \cup D(r.exit = 0 /\ ~r.partial /\ \E p \in DOMAIN stage : stage[p] # "closed", "a destination file was not taken through to close")
                                                                  \cup D(nworkers > 0 /\ maxLive > HandleBound, "more destination handles open at once than the control-plane model allows (OpenBound)")
                                                                  \cup D(nworkers > 0 /\ Cardinality(copiers) > nworkers, "more copying threads than --workers")),
                                         files |-> Cardinality(DOMAIN stage), maxLive |-> maxLive, bound |-> HandleBound])>>)
-            /\ UNCHANGED <<run, driver, stage, opener, finBy, finStep, cloned, inflight, dispatcher, nworkers, liveSet, live, maxLive, copiers, drift>>
+            /\ UNCHANGED <<run, driver, stage, opener, finBy, finStep, cloned, inflight, dispatcher, nworkers, liveSet, live, maxLive, copiers, lite, drift>>
      ELSE Event(r)
 Spec == Init /\ [][Step]_vars
 AllRead == TLCGet("stats").diameter - 1 = Len(Rec)
